@@ -405,3 +405,65 @@ def check_function(fn: FunctionInfo, level_attr: str):
         else:
             out.append(("violated", p, f"level_after + handed = {show(total)}, level_before = {show(expect)}"))
     return out
+
+
+# ---------------------------------------------------------------------------------------------------------------------------------
+def check_read_before_compaction(eng, run, rule: str, floor: int = 1) -> None:
+    """A buffer that is compacted in place (`B[:k] = B[-k:]`: the unread tail is moved to the front) is read out *before* the move
+    on every path: a copy taken afterwards returns the tail twice and loses the head.  Decided for every function of the package
+    that contains such a self-move, with the structured interpreter (fact: has B been compacted on this path)."""
+    import ast as _ast
+
+    from ..db import own_nodes
+    from ..flow import Interp
+    from .base import RuleAnalysis
+
+    from ..db import dotted as _dotted
+
+    def self_move(st):
+        if isinstance(st, _ast.Assign) and len(st.targets) == 1 and isinstance(st.targets[0], _ast.Subscript) and isinstance(st.value, _ast.Subscript):
+            a, b = _dotted(st.targets[0].value), _dotted(st.value.value)
+            if a and a == b:
+                return a
+        return None
+
+    class Moved(RuleAnalysis):
+        tokens = ("Exception",)
+
+        def __init__(self, e, base):
+            super().__init__(e)
+            self.base = base
+            self.viol = []
+
+        def initial(self, f):
+            return [False]
+
+        def may_raise(self, node, fact):
+            return []
+
+        def transfer(self, node, fact):
+            if self_move(node) == self.base:
+                return [True]
+            if fact and isinstance(node, (_ast.Assign, _ast.AnnAssign, _ast.AugAssign, _ast.Return, _ast.Expr)):
+                val = getattr(node, "value", None)
+                if val is not None and any(isinstance(x, (_ast.Name, _ast.Attribute)) and _dotted(x) == self.base and isinstance(x.ctx, _ast.Load) for x in _ast.walk(val)):
+                    # a rebinding of the base name itself (`B = view[...]`) starts a new buffer
+                    if not any(n is node for n in self.viol):
+                        self.viol.append(node)
+            if isinstance(node, (_ast.Assign, _ast.AnnAssign)) and any(_dotted(t) == self.base for t in (node.targets if isinstance(node, _ast.Assign) else [node.target])):
+                return [False]
+            return [fact]
+
+    n = 0
+    for fn in eng.db.all_functions():
+        if isinstance(fn.node, _ast.Lambda):
+            continue
+        bases = {b for st in own_nodes(fn.node) if (b := self_move(st))}
+        for b in sorted(bases):
+            n += 1
+            an = Moved(eng, b)
+            Interp(an, fn).run()
+            for v in an.viol[:1]:
+                run.finding(rule, fn, v, f"`{b}` is read after it has been compacted in place on this path: the bytes copied out are the moved tail, the head of the received data is lost and the tail is delivered twice")
+            run.ob(rule, f"{fn.short}:{b}:copied-out-before-compaction", not an.viol)
+    run.floor(f"{rule} in-place buffer compactions", n, floor)
